@@ -1,5 +1,6 @@
 import Ivy.L1.Select
 import Ivy.Props.C04
+import Ivy.L1.TablesAgree
 /-!
 # C15 — poll method, interrupted waits and missing syscalls do not change behaviour
 
@@ -32,5 +33,10 @@ theorem timers_under_every_configuration (m : Method) (ntimers : Nat) (timerfdAv
     (evs : List Ev) (s' : St) (h : Exec (St.init m ntimers timerfdAvail pwait2) evs s') :
     Ivy.Mon.C04.verdict evs = none :=
   Ivy.Props.C04.monitor_accepts m ntimers timerfdAvail pwait2 evs s' h
+
+/-- T-gen (sample, re-checked against /repo's current code on every run): `method_is_excluded` answers as the
+model's `excludeWords` / `eligible` on every row of the sample -/
+theorem exclude_table_agrees : ∀ r ∈ Ivy.Generated.Tables.exclude, Ivy.L1.TablesAgree.exRowOk r :=
+  Ivy.L1.TablesAgree.exclude_table_agrees
 
 end Ivy.Props.C15
